@@ -2485,7 +2485,8 @@ impl TransactionBuilder {
             reference_inputs: self.get_reference_inputs().to_option(),
             voting_procedures: self.voting_procedures.as_ref().map(|x| x.build()),
             voting_proposals: self.voting_proposals.as_ref().map(|x| x.build()),
-            donation: self.donation.clone(),
+            // a donation is a positive coin: "no donation" is the absent field
+            donation: self.donation.clone().filter(|d| !d.is_zero()),
             current_treasury_value: self.current_treasury_value.clone(),
         };
         // we must build a tx with fake data (of correct size) to check the final Transaction size
